@@ -259,6 +259,42 @@ class Cx:
                     lhs=str(A[worst]) if diff.size else "", rhs=str(B[worst]) if diff.size else "",
                     maxdiff=float(numpy.nanmax(diff)) if diff.size else 0.0, scale=scale))
 
+    def prove_close(self, label, A, B, atol):
+        """element-wise |A - B| <= atol (for quantities that went through concrete floating-point linear algebra,
+        where exact equality only holds up to rounding)"""
+        import numpy
+        if not self.sym:
+            A = numpy.asarray(A).astype(complex)
+            B = numpy.asarray(B).astype(complex)
+            A, B = numpy.broadcast_arrays(A, B)
+            diff = numpy.abs(A - B)
+            bad = not numpy.all(numpy.isfinite(diff)) or float(numpy.max(diff, initial=0.0)) > 2 * atol
+            self.records.append(dict(label=label, verdict="violated" if bad else "held"))
+            if bad:
+                self.replay_violations.append(dict(label=label, maxdiff=float(numpy.nanmax(diff)), atol=atol))
+            return
+        from symnum import core
+        from fractions import Fraction
+        import z3
+        A = numpy.asarray(A, dtype=object)
+        B = numpy.asarray(B, dtype=object)
+        A, B = numpy.broadcast_arrays(A, B)
+        tol = Fraction(atol).limit_denominator(10 ** 15)
+        goals = []
+        for idx in numpy.ndindex(*A.shape):
+            a, b = core.lift(A[idx]), core.lift(B[idx])
+            for x, y in ((a.re, b.re), (a.im, b.im)):
+                if core.isconc(x) and core.isconc(y):
+                    if abs(x - y) > tol:
+                        goals.append(z3.BoolVal(False))
+                    continue
+                d = core.z(x) - core.z(y)
+                goals.append(z3.And(d <= core.RV(tol), -d <= core.RV(tol)))
+        if not goals:
+            self.trivial += 1
+            return
+        self._prove_sym(label, z3.And(goals))
+
     def prove_zero(self, label, A, **kw):
         import numpy
         A = numpy.asarray(A)
